@@ -119,7 +119,7 @@ func runC01(e *env) {
 		prof.ModShape = 0
 		specs = append(specs, synthModule(e.r, prof, i))
 	}
-	obs := observeAll(specs, "gounions,randdata,sqlcrud", 14)
+	obs := observeAll(specs, "gounions,randdata,sqlcrud,decls", 14)
 	defer e.writeAnaCross("C01", specs, obs)
 	type job struct {
 		spec *modSpec
@@ -189,16 +189,18 @@ func runC01(e *env) {
 				}
 			}
 		}
-		cases = append(cases, fmt.Sprintf("{| c1_prog := %s;\n c1_enums := %s;\n c1_choices := %s;\n c1_receivers := %s;\n c1_declared := %s |}",
-			o.Facts, o.Enums, coqList(choices), coqList(receivers), coqList(declared)))
+		gu := gounionsSkeleton(o)
+		e.m.count("gounions_list_" + strings.ToLower(strings.TrimPrefix(strings.SplitN(strings.Trim(gu, "("), " ", 2)[0], "Gu")))
+		cases = append(cases, fmt.Sprintf("{| c1_ana := %s;\n c1_gu := %s;\n c1_prog := %s;\n c1_enums := %s;\n c1_choices := %s;\n c1_receivers := %s;\n c1_declared := %s |}",
+			o.Ana, gu, o.Facts, o.Enums, coqList(choices), coqList(receivers), coqList(declared)))
 		inputs = append(inputs, map[string]interface{}{"module": specs[i], "class": caseClass})
 		if len(cases) == 6 {
-			e.writeCases2(fmt.Sprintf("cases_C01_%d", len(e.m.CaseFiles)), factsHeader+"From GM Require Import Model.Enums Model.GoScope Corr.Check_C01.\n", "mismatches", "prop_failures", cases, inputs)
+			e.writeCases2(fmt.Sprintf("cases_C01_%d", len(e.m.CaseFiles)), factsHeader+"From GM Require Import Facts.Ana Model.Enums Model.GoScope Corr.Check_C01.\n", "mismatches", "prop_failures", cases, inputs)
 			cases, inputs = nil, nil
 		}
 	}
 	if len(cases) > 0 {
-		e.writeCases2(fmt.Sprintf("cases_C01_%d", len(e.m.CaseFiles)), factsHeader+"From GM Require Import Model.Enums Model.GoScope Corr.Check_C01.\n", "mismatches", "prop_failures", cases, inputs)
+		e.writeCases2(fmt.Sprintf("cases_C01_%d", len(e.m.CaseFiles)), factsHeader+"From GM Require Import Facts.Ana Model.Enums Model.GoScope Corr.Check_C01.\n", "mismatches", "prop_failures", cases, inputs)
 	}
 	shadow := map[string]bool{}
 	kindCollision := map[string]bool{}
